@@ -3,7 +3,7 @@
 # Confirms a seeded change in a scratch worktree (outside /repo and /verif): baseline suite still green with the
 # change, demo fails with it and passes without it; then runs the named checks against the changed tree.
 set -u
-dir="$1"; tier="$2"; shift 2
+dir="$(cd "$1" && pwd)"; tier="$2"; shift 2
 wt=$(mktemp -d /tmp/vfseed.XXXXXX); rmdir "$wt"
 git -C /repo worktree add -q --detach "$wt" HEAD || exit 3
 cleanup() { git -C /repo worktree remove --force "$wt" 2>/dev/null; rm -rf "$wt" "$demo"; }
@@ -15,7 +15,7 @@ git -C "$wt" apply "$dir/patch.diff" || { echo "patch does not apply"; exit 3; }
 if [ -z "${SKIP_SUITE:-}" ]; then
   ( cd "$wt" && /venv/bin/python -m pytest -q -p no:cacheprovider --timeout=900 --continue-on-collection-errors 2>&1 | tail -1 )
 fi
-cd /verif
+cd "$(dirname "$0")/.."
 for p in "$@"; do
   cp -f evidence/$p.json /tmp/.ev.$p.$$ 2>/dev/null
   out=$(VF_REPO="$wt" ./vcheck "$p" --tier "$tier" 2>&1); rc=$?
